@@ -11,8 +11,7 @@ PROPS = {
     'C03': dict(parts=[dict(profile='C03', flavor='asan', quick=4000, thorough=300000)], level='exploration'),
     'C05': dict(parts=[dict(profile='C05', flavor='asan', quick=5000, thorough=500000)], level='exploration'),
     'C06': dict(parts=[dict(profile='C06', flavor='asan', quick=5000, thorough=500000)], level='exploration'),
-    'C07': dict(parts=[dict(profile='C07', flavor='asan', quick=4000, thorough=400000),
-                       dict(profile='C07B', flavor='asan', quick=600, thorough=40000, modeb=True)], level='exploration'),
+    'C07': dict(parts=[dict(profile='C07', flavor='asan', quick=4000, thorough=400000)], level='exploration'),
     'C08': dict(parts=[dict(profile='C08', flavor='asan', quick=5000, thorough=500000)], level='exploration'),
     'C09': dict(parts=[dict(profile='C09', flavor='asan', quick=5000, thorough=500000)], level='exploration'),
     'C10': dict(parts=[dict(profile='C10', flavor='asan', quick=5000, thorough=500000)], level='exploration'),
@@ -23,7 +22,8 @@ PROPS = {
     'C14': dict(parts=[dict(profile='C14', flavor='asan', quick=24, thorough=600, enumerate=True)], level='fault_enumeration'),
     'C16': dict(parts=[dict(profile='C16', flavor='asan', quick=4000, thorough=300000)], level='exploration'),
     'C17': dict(parts=[dict(profile='C17', flavor='asan', quick=5000, thorough=500000)], level='exploration'),
-    'C20': dict(parts=[dict(profile='C20', flavor='asan', quick=3000, thorough=250000)], level='exploration'),
+    'C20': dict(parts=[dict(profile='C20', flavor='asan', quick=3000, thorough=250000),
+                       dict(profile='C20', flavor='valgrind', quick=120, thorough=4000)], level='exploration'),
     'SMOKE': dict(parts=[dict(profile='SMOKE', flavor='asan', quick=500, thorough=5000)], level='exploration'),
 }
 QUICK_WALL = float(os.environ.get('VERIF_QUICK_WALL', '75'))
@@ -46,6 +46,8 @@ def sh(cmd, **kw):
 
 
 def build(root, flavor):
+    if flavor == 'valgrind':
+        flavor = 'plain'
     p = sh([os.path.join(root, 'build.sh'), flavor])
     if p.returncode != 0:
         sys.stderr.write(p.stdout + p.stderr)
@@ -85,6 +87,19 @@ def sanitizer_signature(stderr):
         if 'SIM-WATCHDOG' in ln:
             kind = 'watchdog'
             break
+        m = re.match(r'==\d+== (Conditional jump or move depends on uninitialised value|Use of uninitialised value|Syscall param .* uninitialised|Invalid read|Invalid write|Invalid free|Mismatched free)', ln)
+        if m:
+            kind = 'valgrind:' + m.group(1).replace(' ', '_')
+            fr = []
+            for l2 in lines[lines.index(ln) + 1:]:
+                m2 = re.match(r'==\d+==\s+(?:at|by) 0x[0-9A-F]+: (\S+)', l2)
+                if not m2:
+                    break
+                fn = m2.group(1)
+                if fn.startswith('ares_') or fn in ('read_answers', 'process_answer', 'end_query'):
+                    if fn not in fr:
+                        fr.append(fn)
+            return kind + ':' + ','.join(fr[:3])
     if kind is None:
         return None
     frames = []
@@ -104,11 +119,14 @@ def sanitizer_signature(stderr):
     return sig
 
 
+VALGRIND = ['valgrind', '-q', '--error-exitcode=99', '--exit-on-first-error=yes']
+
+
 class Worker:
     """Runs chunks of seeds; restarts the binary after a death."""
 
-    def __init__(self, binp, profile):
-        self.binp, self.profile = binp, profile
+    def __init__(self, binp, profile, prefix=None):
+        self.binp, self.profile, self.prefix = binp, profile, prefix or []
 
     def run_range(self, start, count, out, deadline):
         s, end = start, start + count
@@ -116,7 +134,7 @@ class Worker:
             if time.time() > deadline:
                 out['skipped'] += end - s
                 return
-            p = subprocess.Popen([self.binp, '--profile', self.profile, '--seed', str(s), '--count', str(end - s)],
+            p = subprocess.Popen(self.prefix + [self.binp, '--profile', self.profile, '--seed', str(s), '--count', str(end - s)],
                                  stdout=subprocess.PIPE, stderr=subprocess.PIPE, text=True)
             so, se = p.communicate()
             done = 0
@@ -143,7 +161,7 @@ class Worker:
             s = died + 1
 
 
-def run_parallel(binp, profile, start, count, wall, chunk=None, modeb=False):
+def run_parallel(binp, profile, start, count, wall, chunk=None, modeb=False, prefix=None):
     out = dict(runs=[], summaries=[], deaths=[], infra=[], skipped=0)
     lock = threading.Lock()
     q = queue.Queue()
@@ -158,7 +176,7 @@ def run_parallel(binp, profile, start, count, wall, chunk=None, modeb=False):
     deadline = time.time() + wall
 
     def work():
-        w = Worker(binp, profile)
+        w = Worker(binp, profile, prefix)
         while True:
             try:
                 a, n = q.get_nowait()
@@ -221,8 +239,9 @@ def get_plan(binp, profile, seed):
 
 def run_replay(binp, path, timeout=180):
     """Returns (classes:set, runrec|None, trace|None, stderr)."""
+    pre = VALGRIND if os.sep + 'plain' in binp else []
     try:
-        p = subprocess.run([binp, '--replay', path], stdout=subprocess.PIPE, stderr=subprocess.PIPE, text=True, timeout=timeout)
+        p = subprocess.run(pre + [binp, '--replay', path], stdout=subprocess.PIPE, stderr=subprocess.PIPE, text=True, timeout=timeout)
     except subprocess.TimeoutExpired:
         return set(['watchdog']), None, None, 'timeout'
     rec = None
@@ -406,6 +425,8 @@ def do_check(root, prop, tier, seed):
         wall = wall_total / nparts
         if part.get('enumerate'):
             res = run_parallel(binp, part['profile'], start, count, wall, chunk=1)
+        elif part['flavor'] == 'valgrind':
+            res = run_parallel(binp, part['profile'], start + pi * 500000, count, wall, chunk=max(2, count // (WORKERS * 2)), prefix=VALGRIND)
         else:
             res = run_parallel(binp, part['profile'], start + pi * 500000, count, wall, modeb=part.get('modeb', False))
         infra += res['infra']
